@@ -75,6 +75,15 @@ def scenarios(dumps, tier, rng=None, syscfg=None):
     for nm, path in sorted((syscfg or {}).items()):
         if tier == "thorough" or nm in QUICK_SYS:
             sc.append(("wb_sys_os", nm.replace("xlat-", ""), "wb_sys_os @N @" + path))
+            if "ia32" in nm and "linux" in nm and not os.path.exists(path[:-4] + "-cr3err.cfg"):
+                # a register callback that fails outright: the set-up must fail and leave nothing
+                txt = "".join(l for l in open(path) if not l.startswith("O ")) + "Y ERR cr3 - 0\n"
+                o_ = [l for l in open(path) if l.startswith("O ")][0]
+                o_ = ",".join(x for x in o_.strip()[2:].split(",") if not x.startswith("rootpgt"))
+                with open(path[:-4] + "-cr3err.cfg", "w") as f:
+                    f.write("O " + o_ + "\n" + txt)
+            if "ia32" in nm and "linux" in nm:
+                sc.append(("wb_sys_os", nm.replace("xlat-", "") + "-cr3err", "wb_sys_os @N @" + path[:-4] + "-cr3err.cfg"))
             if "ppc64" in nm:
                 # the application replaces the methods the set-up made (ppc64: the VMEMMAP lookup
                 # table belongs to the system), re-initialises, drops the system
